@@ -14,7 +14,6 @@
 package v1
 
 import (
-	"bytes"
 	"encoding/hex"
 	"encoding/json"
 	"fmt"
@@ -24,8 +23,6 @@ import (
 	"github.com/attestantio/go-eth2-client/spec/bellatrix"
 	"github.com/pkg/errors"
 )
-
-var zeroExecutionAddress bellatrix.ExecutionAddress
 
 // ProposerConfig is the configuration for a specific proposer.
 type ProposerConfig struct {
@@ -42,11 +39,10 @@ type proposerConfigJSON struct {
 
 // MarshalJSON implements json.Marshaler.
 func (p *ProposerConfig) MarshalJSON() ([]byte, error) {
+	// The fee recipient is mandatory when unmarshalling, so it is always present, even if zero.
 	proposerConfig := &proposerConfigJSON{
-		Builder: p.Builder,
-	}
-	if !bytes.Equal(p.FeeRecipient[:], zeroExecutionAddress[:]) {
-		proposerConfig.FeeRecipient = fmt.Sprintf("%#x", p.FeeRecipient)
+		FeeRecipient: fmt.Sprintf("%#x", p.FeeRecipient),
+		Builder:      p.Builder,
 	}
 	if p.GasLimit != 0 {
 		proposerConfig.GasLimit = fmt.Sprintf("%d", p.GasLimit)
